@@ -92,6 +92,15 @@ func (s *SourceSplitter) Start(ckpt *snapshotpb.SourceCheckpoint) error {
 		s.cursors[split.ShardId] = split.Cursor
 	}
 
+	// A shard can finish after its reader reported a position for this
+	// checkpoint but before the splitter state was taken. It has a position
+	// but is not among the assigned shards, and shard discovery resumes
+	// behind it: track it again so that it is read from that position (its
+	// children wait for it).
+	if err := s.resumeFinishedShards(ctx, pendingShards, splitterState.LastAssignedShardId); err != nil {
+		return fmt.Errorf("kinesis.SourceSplitter failed to resume finished shards: %w", err)
+	}
+
 	// Include newly discovered shards for assignment
 	err := s.discoverShards(ctx, s.splitTracker.LastAssignedSplitID)
 	if err != nil {
@@ -166,6 +175,36 @@ func (s *SourceSplitter) Checkpoint() []byte {
 		panic(err)
 	}
 	return bs
+}
+
+// resumeFinishedShards tracks the shards that have a checkpointed position but
+// were no longer assigned when the splitter state was checkpointed.
+func (s *SourceSplitter) resumeFinishedShards(ctx context.Context, assigned []SourceSplitterShard, lastAssignedShardID string) error {
+	missing := make(map[string]struct{}, len(s.cursors))
+	for shardID := range s.cursors {
+		if shardID <= lastAssignedShardID {
+			missing[shardID] = struct{}{}
+		}
+	}
+	for _, shard := range assigned {
+		delete(missing, shard.ShardID)
+	}
+	if len(missing) == 0 {
+		return nil
+	}
+
+	shards, err := s.listAllShards(ctx, "")
+	if err != nil {
+		return err
+	}
+	resumed := make([]SourceSplitterShard, 0, len(missing))
+	for _, shard := range shards {
+		if _, ok := missing[shard.ShardID]; ok {
+			resumed = append(resumed, shard)
+		}
+	}
+	s.splitTracker.AddSplits(resumed)
+	return nil
 }
 
 // listAllShards paginates through all shards for a given streamARN, starting after exclusiveStartShardID.
